@@ -11,7 +11,7 @@ import traceback
 
 VERIF = os.path.dirname(os.path.dirname(os.path.dirname(os.path.abspath(__file__))))
 REPO = os.environ.get('UTAP_SRC', '/repo')
-WORK = os.path.join(VERIF, '.work')
+WORK = os.environ.get('VERIF_WORK') or os.path.join(VERIF, '.work')    # scratch; mutation runs use their own so that they can run next to a sweep
 JOBS = int(os.environ.get('VERIF_JOBS', '16'))
 
 
